@@ -36,7 +36,7 @@ D build(Case& c, unsigned& total) {
   std::vector<Inner> tmp(no);
   total = 0;
   for (auto& in : tmp) {
-    unsigned n = rng.pick({0u, 0u, 0u, 1u, 1u, 2u, 3u, 4u, 5u, 9u});
+    unsigned n = rng.pick({0u, 0u, 0u, 1u, 1u, 2u, 3u, 4u, 5u, 9u, 9u, 33u});
     for (unsigned i = 0; i < n; ++i)
       in.push_back(c.nextVal());
     total += n;
@@ -359,20 +359,18 @@ void run_TwoLevelIterator(Case& c) {
 }
 
 void run_TwoLevelIteratorA(Case& c) {
-  // forward-only outer iterators with a bidirectional two-level iterator: rare variant
-  bool fwdOuter    = c.rng.below(128) == 0;
-  unsigned shape   = fwdOuter ? 6 : (unsigned)c.rng.below(6);
-  unsigned tag     = fwdOuter ? (unsigned)c.rng.below(2) : (unsigned)c.rng.below(3);
+  // shape 6: forward-only outer iterators (forward_list), with every declared traversal
+  unsigned shape   = (unsigned)c.rng.below(7);
+  unsigned tag     = (unsigned)c.rng.below(3);
   bool constOuter  = c.rng.below(3) == 0;
-  bool backJumps   = c.rng.below(2) == 0;
+  bool backJumps   = true; // backward jumps of any length
   unsigned nops    = c.pickOps();
   static const char* TG[] = {"forward", "bidirectional", "random_access"};
   std::string cfg = std::string(SHAPES[shape]) + "|" + TG[tag] + (constOuter ? "|const" : "") +
                     (tag == 2 && backJumps ? "|backjumps" : "");
   if (!c.begin("TwoLevelIteratorA", cfg,
           J().kv("outer", SHAPES[shape]).kv("tag", TG[tag]).kv("const_outer", constOuter)
-              .kv("backward_jumps_beyond_one_step", tag == 2 && backJumps).kv("nops", nops),
-               fwdOuter ? "forward-outer" : ""))
+              .kv("backward_jumps_beyond_one_step", tag == 2 && backJumps).kv("nops", nops)))
     return;
   switch (shape) {
   case 0: return aTags<VV>(c, tag, constOuter, backJumps, nops);
@@ -381,10 +379,7 @@ void run_TwoLevelIteratorA(Case& c) {
   case 3: return aTags<LL>(c, tag, constOuter, backJumps, nops);
   case 4: return aTags<VD>(c, tag, constOuter, backJumps, nops);
   case 5: return aTags<DV>(c, tag, constOuter, backJumps, nops);
-  default:
-    if (tag == 0)
-      return aTag<FV, std::forward_iterator_tag>(c, constOuter, false, nops);
-    return aTag<FV, std::bidirectional_iterator_tag>(c, constOuter, false, nops);
+  default: return aTags<FV>(c, tag, constOuter, backJumps, nops);
   }
 }
 
